@@ -105,6 +105,14 @@ def run(ctx):
             t = rng.randrange(1, len(tables)) if st in ("nulls", "badu") else 0
             reqs.setdefault((st, t, "dml%d" % i), []).extend(dict(raw=render_dml(d), **{"from": [], "list": [], "where": [], "group": [], "order": [], "limit": -1, "offset": -1, "style": 0}) for d in dmls[i:i + 40])
             n_stmt += len(dmls[i:i + 40])
+    # statements that write to the catalog tables, one session each: the statement, then statements that go through the catalog
+    blank = {"from": [], "list": [], "where": [], "group": [], "order": [], "limit": -1, "offset": -1, "style": 0}
+    probes = list(sets["catprobes8"][0])
+    for i, c in enumerate(sorted(sets["catdmls8"])):
+        for st in ("nulls", "empty"):
+            t = rng.randrange(1, len(tables)) if st == "nulls" else 0
+            reqs.setdefault((st, t, "cat%d" % i), []).extend(dict(raw=x, **blank) for x in [c] + probes)
+            n_stmt += 1 + len(probes)
     empty = [t for t in tables if not t["rows"]][0]
     requests = []
     for (st, t, _), qs in reqs.items():
